@@ -92,7 +92,8 @@ pub const N_CONFIGS: usize = 8;
 fn world(k: usize, scale: usize, thorough: bool, extra: &[u128]) -> (Vec<Act>, Probes, Vec<St>) {
     let (_, c) = config(k, scale);
     let slots = |n: usize| -> Vec<VPos<u64>> {
-        let kinds = [(true, true), (true, true), (false, false), (true, false), (false, true)];
+        // long / long-token collateral, long / short-token collateral, short / short-token collateral, short / long-token collateral
+        let kinds = [(true, true), (true, false), (false, false), (false, true), (true, true)];
         kinds[..n].iter().map(|&(l, cl)| VPos { is_long: l, is_collateral_long: cl, ..Default::default() }).collect()
     };
     let npos = if thorough { 4 } else { 3 };
